@@ -441,6 +441,21 @@ func rewriteOutcomes(l *List, host string, qt uint16, byHost bool) (outs []Outco
 // allowBy / blockBy map a list index in srcs to the reported texts.
 type basicRes struct {
 	allow, block map[*List][]string
+
+	// allowPrio is, per list, the highest priority among its matching allow
+	// rules, in urlfilter's documented terms ("more specific rules, i.e. with
+	// more modifiers, have higher priority"): within the grammar, 1 with a
+	// $dnstype modifier and 0 without.
+	allowPrio map[*List]int
+}
+
+// allowPriority is the priority of an allow rule among allow rules.
+func (r Rule) allowPriority() int {
+	if r.TypeMod != 0 {
+		return 1
+	}
+
+	return 0
 }
 
 // basic implements "network rules always have higher priority" (urlfilter's
@@ -448,7 +463,7 @@ type basicRes struct {
 // are candidates for the reported block only when no network block rule
 // matches anywhere.
 func basic(srcs []*List, host string, qt uint16) (b basicRes) {
-	b = basicRes{allow: map[*List][]string{}, block: map[*List][]string{}}
+	b = basicRes{allow: map[*List][]string{}, block: map[*List][]string{}, allowPrio: map[*List]int{}}
 	hosts := map[*List][]string{}
 	for _, l := range srcs {
 		for _, r := range l.Rules {
@@ -459,6 +474,7 @@ func basic(srcs []*List, host string, qt uint16) (b basicRes) {
 			switch {
 			case r.Kind == KAllow:
 				b.allow[l] = append(b.allow[l], l.reported(r))
+				b.allowPrio[l] = max(b.allowPrio[l], r.allowPriority())
 			case r.isNetBlock():
 				b.block[l] = append(b.block[l], l.reported(r))
 			default:
@@ -575,8 +591,21 @@ func (c *Config) EvalRequest(host string, qt uint16) (outs []Outcome) {
 		customAllows = customAllows && c.Custom != nil
 		if customAllows {
 			outs = append(outs, Outcome{Kind: OAllowed, List: IDCustom, Rules: b.allow[c.Custom]})
-			if len(b.allow) == 1 {
-				// The deciding allow rule can only be the profile's own.
+
+			// The custom filter is consulted first (documented order of
+			// composite.Filter.FilterRequest; "the profile's custom rules
+			// first"), so among allow rules of equal priority the profile's own
+			// is the deciding one: the safety filters must not apply.  Only an
+			// allow rule of strictly higher priority in another list can be
+			// taken for the deciding one instead.
+			otherBest := -1
+			for l, p := range b.allowPrio {
+				if l != c.Custom {
+					otherBest = max(otherBest, p)
+				}
+			}
+
+			if b.allowPrio[c.Custom] >= otherBest {
 				return outs
 			}
 		}
@@ -790,4 +819,37 @@ func KindSet(outs []Outcome) string {
 	sort.Strings(ks)
 
 	return strings.Join(ks, "+")
+}
+
+// OwnAllowEqualsShared reports whether the question has the shape: no rewrite
+// decides; the profile's own rules contain a matching allow rule; a shared list
+// in effect contains a textually equal allow rule; and a safety filter in
+// effect matches the host.
+func (c *Config) OwnAllowEqualsShared(host string, qt uint16) bool {
+	if c == nil || c.Custom == nil || len(c.safety(host, qt)) == 0 {
+		return false
+	}
+
+	for _, l := range append([]*List{c.Custom}, c.Shared...) {
+		if len(rewriteOutcomes(l, host, qt, false)) > 0 {
+			return false
+		}
+	}
+
+	own := map[string]bool{}
+	for _, r := range c.Custom.Rules {
+		if r.Kind == KAllow && r.Matches(host, qt) {
+			own[r.Text()] = true
+		}
+	}
+
+	for _, l := range c.Shared {
+		for _, r := range l.Rules {
+			if r.Kind == KAllow && r.Matches(host, qt) && own[r.Text()] {
+				return true
+			}
+		}
+	}
+
+	return false
 }
